@@ -46,25 +46,29 @@ DEFAULTS = {"m1": {}, "m2": 0, "xs": [], "s": "", "n": None}
 def eq_default(f, v):
     d = DEFAULTS[f]
     return type(v) is type(d) and v == d or (v == d and not isinstance(v, bool) and not isinstance(d, bool) and type(v) in (int, float) and type(d) in (int, float))
-RF = {dt: Retort(recipe=[name_mapping(MF, map={"m1": ("meta", "m1"), "m2": ("meta", "m2")}, omit_default=True)], debug_trail=dt) for dt in DT_MODES}
-DPF = {dt: r.get_dumper(MF) for dt, r in RF.items()}
-LDF = {dt: r.get_loader(MF) for dt, r in RF.items()}
+# two key orders inside the nested node: the factory-default field first / last
+KEYS = ({"m1": "m1", "m2": "m2"}, {"m1": "q", "m2": "p"})
+RF = {(ko, dt): Retort(recipe=[name_mapping(MF, map={"m1": ("meta", KEYS[ko]["m1"]), "m2": ("meta", KEYS[ko]["m2"])}, omit_default=True)], debug_trail=dt)
+      for dt in DT_MODES for ko in (0, 1)}
+DPF = {k: r.get_dumper(MF) for k, r in RF.items()}
+LDF = {k: r.get_loader(MF) for k, r in RF.items()}
 def omit_factory(a, i1, i2, i3, i4, i5):
     """omit_default removes exactly the fields whose value equals the default (also for default factories and falsy look-alikes);
     the nested node is written even when empty; load(dump(x)) == x"""
     vals = {"m1": VALS[pick(i1, 11)], "m2": VALS[pick(i2, 11)], "xs": VALS[pick(i3, 11)], "s": VALS[pick(i4, 11)], "n": VALS[pick(i5, 11)]}
     obj = MF(a, **vals)
-    exp = {"a": a, "meta": {}}
-    for f, v in vals.items():
-        if v == DEFAULTS[f]: continue                       # `==` is the documented comparison
-        if f in ("m1", "m2"): exp["meta"][f] = v
-        else: exp[f] = v
-    for dt in DT_MODES:
-        d = DPF[dt](obj)
-        if d != exp: return False
-        back = LDF[dt](d)
+    for ko in (0, 1):
+        exp = {"a": a, "meta": {}}
         for f, v in vals.items():
-            if getattr(back, f) != v: return False
+            if v == DEFAULTS[f]: continue                       # `==` is the documented comparison
+            if f in ("m1", "m2"): exp["meta"][KEYS[ko][f]] = v
+            else: exp[f] = v
+        for dt in DT_MODES:
+            d = DPF[(ko, dt)](obj)
+            if d != exp: return False
+            back = LDF[(ko, dt)](d)
+            for f, v in vals.items():
+                if getattr(back, f) != v: return False
     return True
 
 # function mappers returning paths with Ellipsis: the key AFTER trimming / name_style
@@ -75,12 +79,19 @@ class MN:
     z: int = 1
 RN = {dt: Retort(recipe=[name_mapping(MN, name_style=NameStyle.CAMEL, map=[("first_name|from_", lambda shape, fld: ("g", ...))])], debug_trail=dt) for dt in DT_MODES}
 RL = {dt: Retort(recipe=[name_mapping(MN, as_list=True, map=[("z", lambda shape, fld: ...)])], debug_trail=dt) for dt in DT_MODES}
+DN = {dt: r.get_dumper(MN) for dt, r in RN.items()}
+LN = {dt: r.get_loader(MN) for dt, r in RN.items()}
+DL = {dt: r.get_dumper(MN) for dt, r in RL.items()}
 def func_mapper(a, b, c):
     obj = MN(a, b, c)
     for dt in DT_MODES:
-        if RN[dt].dump(obj) != {"g": {"firstName": a, "from": b}, "z": c}: return False
-        if RN[dt].load({"g": {"firstName": a, "from": b}, "z": c}, MN) != obj: return False
-        if RL[dt].dump(obj) != [a, b, c]: return False
+        d = DN[dt](obj)
+        if type(d) is not dict or sorted(d) != ["g", "z"] or type(d["g"]) is not dict or sorted(d["g"]) != ["firstName", "from"]: return False
+        if d["g"]["firstName"] is not a or d["g"]["from"] is not b or d["z"] is not c: return False
+        back = LN[dt]({"g": {"firstName": a, "from": b}, "z": c})
+        if back.first_name is not a or back.from_ is not b or back.z is not c: return False
+        l = DL[dt](obj)
+        if type(l) is not list or len(l) != 3 or l[0] is not a or l[1] is not b or l[2] is not c: return False
     return True
 ''')
     for sl, pre in (("nested", "i3 == 3 and i4 == 2 and i5 == 0"), ("flat", "i1 == 4 and i2 == 1 and i5 == 0"), ("none", "i1 == 4 and i3 == 3 and i4 == 2")):
